@@ -495,6 +495,9 @@ func CheckC15Exp(c C19Exp, rec *Rec) error {
 		if err = back.Read(bytes.NewReader(buf.Bytes())); err != nil {
 			return fmt.Errorf("Experiment.Read: %v", err)
 		}
+		if _, derr := digestExperiment(&back); derr != nil {
+			return derr
+		}
 		rec.Class("record read into a value that already holds it")
 	case 2:
 		longer := c.Exp
@@ -503,7 +506,23 @@ func CheckC15Exp(c C19Exp, rec *Rec) error {
 		for i := range longer.Trials {
 			longer.Trials[i].Id += 100
 		}
+		// the record held before describes other winners (other numbers, other solved generations), and the value was asked for
+		// its statistics before it is read into - whatever it remembered belongs to the old record
+		longer.Trials = append([]TrialSpec{}, longer.Trials...)
+		for i := range longer.Trials {
+			gs := append([]GenSpec{}, longer.Trials[i].Generations...)
+			for j := range gs {
+				gs[j].WinnerNodes, gs[j].WinnerGenes, gs[j].WinnerEvals, gs[j].Diversity = gs[j].WinnerNodes+1000, gs[j].WinnerGenes+2000, gs[j].WinnerEvals+3000, gs[j].Diversity+7
+				if (i+j)%3 == 0 {
+					gs[j].Solved = !gs[j].Solved
+				}
+			}
+			longer.Trials[i].Generations = gs
+		}
 		back = *longer.Build()
+		if _, derr := digestExperiment(&back); derr != nil {
+			return derr
+		}
 		rec.Class("record read into a value that holds a longer record")
 	case 3:
 		if n := buf.Len(); n > 8 {
